@@ -77,7 +77,8 @@ def build(tier: str, rng: random.Random):
         scripts.append(calcheck.to_script(o, {**bc, "lineup": calcfg.LU["ABA"]}, seed=rng.randrange(1, 10**6), saving=rng.random() < 0.5,
                                           verbose=rng.random() < 0.5, prec=rng.randint(0, 6)))
     # RL scheduler: every agent choice sequence
-    for gen, k in (("Gen_C09_rl", 70 if tier == "quick" else 115), ("Gen_C09_rl2", 50 if tier == "quick" else 400)):
+    for gen, k in (("Gen_C09_rl", 70 if tier == "quick" else 115), ("Gen_C09_rl2", 50 if tier == "quick" else 400),
+                   ("Gen_C09_rl3", 40 if tier == "quick" else 400)):
         b = calcfg.config(gen)
         o2 = calcheck.maximal(calcheck.tlc_scripts(gen))
         n_avail += len(o2)
@@ -102,7 +103,7 @@ def build(tier: str, rng: random.Random):
 def run(tier: str) -> int:
     chk = Check("C09", tier)
     rng = random.Random(900 + chk.seed)
-    calcheck.design(chk, ["MC_C09", "MC_C09_rl", "MC_C09_rl2"])
+    calcheck.design(chk, ["MC_C09", "MC_C09_rl", "MC_C09_rl2", "MC_C09_rl3"])
     scripts, n_avail = build(tier, rng)
     chk.extra["tlc_behaviours_available"] = n_avail
     traces = calcheck.execute(scripts) + ctor_traces()
